@@ -49,6 +49,9 @@ CheckObs(ri, rec, kk, nn, lbl) ==
       /\ Chk(Unpack(rec.fm[kk]) = lbl, ri, nn, "from_seconds_midframe")
       /\ Chk(Unpack(rec.ff[kk]) = lbl, ri, nn, "from_seconds_float_midframe")
       /\ Chk(Unpack(rec.af[kk]) = nxt, ri, nn, "add_one_frame_is_tick")
+      \* wo = 1 iff the rational offset read from ONE object before and after it is advanced by a frame is nn / rate and
+      \* (nn + 1) / rate (exact comparison of rationals, done where the values are)
+      /\ Chk(rec.wo[kk] = 1, ri, nn, "offset_of_an_advanced_time_code")
       /\ Chk(IF kk = 1 THEN TRUE ELSE LexLess(Unpack(rec.lab[kk - 1]), got), ri, nn, "strictly_increasing")
       /\ LET o == OffsetOf(nn)
          IN  Chk(/\ rec.ow[kk] = o[1]
